@@ -35,4 +35,19 @@ CHECKS["C06"] = {
     "engine": "tlc+vh",
 }
 
+CHECKS["C15"] = {
+    "category": "model_checking",
+    "text": "spec/AsyncReader.tla models the reader's state (prefix bytes, offset, buffer), the caller's future (none/running/suspended) and an "
+            "adversarial source; TLC explores every interleaving of deliver-k / pending / transient error / eof with start / resume / drop for every "
+            "cut point within the bounds and checks eight safety invariants (in-order, no loss/duplication/tearing, no value from a cut frame, clean "
+            "end only at a boundary, errors reported once, buffer bounded). The schedule of every explored transition is replayed on the real "
+            "AsyncReader (scripted AsyncRead, hand-polled futures dropped at Pending); seeded random walks of the real reader are validated event by "
+            "event against the same actions with all invariants on.",
+    "design_ref": "DESIGN.md section 6, C15",
+    "note": "Trusted: TLC, futures-io semantics as modelled by the scripted source, the no-op-waker executor. Liveness is not checked; bounds: <= 4 "
+            "frames, <= 3 consecutive Pending, <= 2 transient errors in MC; <= 200 frames in random walks.",
+    "technique": "TLA+ state-machine spec (AsyncReader) + TLC exhaustive schedule exploration + schedule replay on the real code + trace validation of random walks",
+    "engine": "tlc+vh",
+}
+
 NOT_YET = "check not built yet in this round (planned in DESIGN.md section 10); not claimed until it exists"
